@@ -1099,6 +1099,11 @@ func (agg *aggregate) Process(ctx context.Context, man gdbi.Manager, in gdbi.InP
 					}
 					//sBucket, _ := structpb.NewValue(bucket)
 					out <- &gdbi.BaseTraveler{Aggregation: &gdbi.Aggregate{Name: a.Name, Key: bucket, Value: float64(count)}}
+					if bucket+i <= bucket {
+						// the interval is too small to advance a float64 of this magnitude:
+						// without this the loop would emit the same bucket for ever
+						break
+					}
 				}
 				return outErr
 			})
